@@ -19,6 +19,7 @@ void verif_force(A& a, A& b, VerifIndex& ix, const A::StateTuple& t, const size_
   a.AddTransition(t, sym, st); verif_sink[i++] = (void*)(size_t)a.ContainsTransition(t, sym, st); verif_sink[i++] = (void*)(size_t)a.AreTransitionsEmpty();
   a.ReindexStates(b, ix, true);
   a.BuildStateIndex(ix);
+  verif_sink[i++] = (void*)(size_t)a.IsLangEmpty();
   { A r1 = a.ReindexStates(ix, true); A r2 = a.CollapseStates(ix); verif_sink[i++] = (void*)&r1; verif_sink[i++] = (void*)&r2; }
   { VerifSym sy; A r3 = a.TranslateSymbols(sy); verif_sink[i++] = (void*)&r3; }
   A c(a); c = b; A d(std::move(c)); d = std::move(a);
